@@ -461,7 +461,8 @@ def run(check: core.Check) -> None:
         "Evaluator.evaluate and Signature.check_call_with_bound_args are wrapped in the harness process to record "
         "positions, returned value and every UserRaisedError (the visitor de-duplicates diagnostics per call node)",
     ]
-    cfgs = ["TypeEval.quick1.cfg", "TypeEval.quick2.cfg"] if quick else [
+    # quick3: the two-union-argument slice (and/or over both parameters + a re-test), replayed in full
+    cfgs = ["TypeEval.quick1.cfg", "TypeEval.quick2.cfg", "TypeEval.quick3.cfg"] if quick else [
         "TypeEval.thorough1.cfg", "TypeEval.thorough2.cfg", "TypeEval.thorough3.cfg"]
     workers = max(4, (core.NCPU - 4) // len(cfgs))
 
@@ -492,6 +493,7 @@ def run(check: core.Check) -> None:
     check.add_tlc("coverage:TypeEval.cov.cfg", cov)
     cases: list[dict] = []
     sampled = False
+    dense_keys: set[str] = set()
     for cfg, res in zip(cfgs, results):
         core.require_ok(res, "TypeEval exhaustive " + cfg)
         emitted = core.emitted_json(res)
@@ -500,6 +502,8 @@ def run(check: core.Check) -> None:
         mod_ = int(re.search(r"EmitMod = (\d+)", (core.SPEC / "mc" / cfg).read_text()).group(1))
         sampled = sampled or mod_ > 1
         check.add_tlc("exhaustive:" + cfg, res, emitted_cases=len(emitted), emitted_body_fraction=f"1/{mod_}")
+        if cfg == "TypeEval.quick3.cfg":
+            dense_keys.update(core.canon(c) for c in emitted)
         cases += emitted
     uniq = {core.canon(c): c for c in cases}
     cases = list(uniq.values())
@@ -515,10 +519,10 @@ def run(check: core.Check) -> None:
     )
     # S->C replay, adjudicated by TLC
     limit = 20000 if quick else 300000
-    probes = [c for c in cases if _is_probe(c)]
-    others = [c for c in cases if not _is_probe(c)]
-    exhaustive = len(cases) <= limit and not sampled
-    if len(cases) > limit:  # sample whole evaluator functions (all their calls), seeded
+    probes = [c for c in cases if _is_probe(c) or core.canon(c) in dense_keys]  # always replayed
+    others = [c for c in cases if not (_is_probe(c) or core.canon(c) in dense_keys)]
+    exhaustive = len(cases) - len(dense_keys) <= limit and not sampled
+    if len(cases) - len(dense_keys) > limit:  # sample whole evaluator functions (all their calls), seeded
         groups: dict[str, list[dict]] = {}
         for c in others:
             groups.setdefault(_fkey(c), []).append(c)
@@ -526,7 +530,7 @@ def run(check: core.Check) -> None:
         rnd.shuffle(keys)
         others = []
         for k in keys:
-            if len(others) + len(probes) >= limit:
+            if len(others) + len(probes) - len(dense_keys) >= limit:  # the dense slice is on top of the limit
                 break
             others += groups[k]
     check.cov["exhaustive"] = exhaustive
@@ -534,7 +538,7 @@ def run(check: core.Check) -> None:
     check.cov["rule"] = (
         "cases = states with stage=done of TypeEval.tla (body x signature x call shape x argument types); all probe "
         "cases (every argument-kind primitive under every signature x call shape, every version/platform check) are "
-        "replayed; of the other cases TLC emits all (quick) or the evaluator bodies in one seeded residue class of a "
+        "replayed, and so is every case of the two-union-argument slice TypeEval.quick3.cfg (quick tier); of the other cases TLC emits all (quick) or the evaluator bodies in one seeded residue class of a "
         "structural hash (thorough: 1/16, 1/4), which are replayed up to the replay limit; non-trivial = "
         "a union-typed or Any argument, or a call with *args/**kwargs"
     )
